@@ -127,25 +127,19 @@ Definition scalar_kinds : list kind := [KInt; KFloat; KBool; KVoid; KString].
    run into gen/Gen_Dispositions.v) lists the classes the implementation exhibits NOW; the theorems of
    Props.v hold for every cell outside the footprints of the open classes, and every open class is shown to
    be a real refutation inside its footprint.  With `open = []` the theorems are the full clauses.
-   Deviations repaired in /repo have NO constructor here (absent .- x = -x and "" .* x = -x were repaired by fix: 481d57d86):
+   Deviations repaired in /repo have NO constructor here (absent .- x = -x and "" .* x = -x were repaired by fix: 481d57d86;
+   [..] ^ null = absent, max(error, null) = null and error ** absent = absent by the round-3 fix: commits):
    their cells can no longer be excluded, so a regression breaks the theorems. *)
 Inductive finding :=
 | F_absent_left_zero (op : string)     (* absent op x = 0 for op in / // % ** *)
-| F_xor_collection_null                (* [..] ^ null = absent but null ^ [..] = error *)
-| F_max_empty_number                   (* max("", number) = "" *)
-| F_max_error_null                     (* max(error, null) = null *)
-| F_pow_error_absent.                  (* error ** absent = absent *)
+| F_max_empty_number.                  (* max("", number) = "" *)
 
 Definition cellkey := (string * kind * kind)%type.
 Definition footprint (f : finding) : list cellkey :=
   match f with
   | F_absent_left_zero op => [(op, KAbsent, KInt); (op, KAbsent, KFloat)]
-  | F_xor_collection_null => [("^", KArray, KNull); ("^", KMap, KNull); ("^", KNull, KArray); ("^", KNull, KMap)]
   | F_max_empty_number =>
       flat_map (fun op => [(op, KVoid, KInt); (op, KVoid, KFloat); (op, KInt, KVoid); (op, KFloat, KVoid)]) ["max"; "max_binary"]
-  | F_max_error_null =>
-      flat_map (fun op => [(op, KError, KNull); (op, KNull, KError)]) ["max"; "max_binary"]
-  | F_pow_error_absent => [("**", KError, KAbsent); ("**", KAbsent, KError)]
   end.
 
 Definition key_eqb (a b : cellkey) : bool :=
@@ -342,13 +336,6 @@ Definition refuted (T : bintable) (f : finding) : bool :=
   match f with
   | F_absent_left_zero op =>
       has2 T op KAbsent KInt CInt0 && has2 T op KAbsent KFloat CFloat0 && negb (has2 T op KAbsent KInt (CArg 2))
-  | F_xor_collection_null =>
-      negb (same_result_kinds (lookup2 T "^" KArray KNull) (lookup2 T "^" KNull KArray))
-      || negb (same_result_kinds (lookup2 T "^" KMap KNull) (lookup2 T "^" KNull KMap))
   | F_max_empty_number =>
       existsb (fun key => let '(op, k1, k2) := key in has2 T op k1 k2 CVoid) (footprint F_max_empty_number)
-  | F_max_error_null =>
-      existsb (fun key => let '(op, k1, k2) := key in negb (has2 T op k1 k2 CError)) (footprint F_max_error_null)
-  | F_pow_error_absent =>
-      existsb (fun key => let '(op, k1, k2) := key in negb (has2 T op k1 k2 CError)) (footprint F_pow_error_absent)
   end.
